@@ -111,8 +111,14 @@ def fuzz_text(prop, exe):
     art = os.path.join(ROOT, "work", "fuzz_artifacts", target) + os.sep
     shutil.rmtree(corp, ignore_errors=True)
     shutil.rmtree(art, ignore_errors=True)
-    os.makedirs(corp)
-    os.makedirs(art)
+    os.makedirs(corp, exist_ok=True)
+    os.makedirs(art, exist_ok=True)
+    for d in (corp, art):
+        for f in os.listdir(d):
+            try:
+                os.remove(os.path.join(d, f))
+            except OSError:
+                pass
     seeds = [b"", b"a", b"ab\ncd\n", b"\r\n\r\n", "\u00e9\u4e2d\U0001F600".encode("utf-8"), b"x\ny\nz\n1\n2\n3\n4\n", "\t\u4e2d\n".encode("utf-8")]
     for i, sd in enumerate(seeds):
         with open(os.path.join(corp, "seed%d" % i), "wb") as f:
